@@ -437,3 +437,20 @@ func VerifHandleFIPEvent(i IPAM, obj *v1alpha1.FloatingIP, add bool) error {
 	}
 	return i.(*crdIpam).handleFIPUnassign(obj)
 }
+
+// VerifWalk runs the real walkIPRanges over n symbolic ranges of width <= 3 and returns the number of addresses visited.
+func VerifWalk(n int) int {
+	var ranges []nets.IPRange
+	for i := 0; i < n; i++ {
+		first, last := nondetU32(), nondetU32()
+		verifAssume(first <= last)
+		verifAssume(last-first <= 2)
+		ranges = append(ranges, nets.IPRange{First: nets.IntToIP(first), Last: nets.IntToIP(last)})
+	}
+	visited := 0
+	walkIPRanges(ranges, func(ip net.IP) bool {
+		visited++
+		return false
+	})
+	return visited
+}
